@@ -835,8 +835,24 @@ def delete_pointless_statements(source: str) -> str:
     for node in itertools.chain([ast_tree], parsing.iter_bodies_recursive(ast_tree)):
         for i, child in enumerate(node.body):
             if not core.has_side_effect(child, safe_callables):
+                if _evaluation_raises(child):
+                    continue  # e.g. int("x") in a try block
+
                 if i > 0 or not _is_pointless_string(child):  # Docstring
                     yield child, None
+
+
+def _evaluation_raises(node: ast.AST) -> bool:
+    """Whether node is an expression statement of constants only, whose evaluation raises."""
+    if not isinstance(node, ast.Expr) or isinstance(node.value, ast.Constant):
+        return False
+    try:
+        core.literal_value(node.value)
+    except ValueError as error:
+        # literal_value chains the exception that the evaluation ran into
+        return isinstance(error.__cause__, Exception)
+
+    return False
 
 
 def _iter_unreachable_nodes(body: Iterable[ast.AST]) -> Iterable[ast.AST]:
